@@ -992,13 +992,126 @@ def replay_bounded_history(w):
     return (bool(r), r or "history agrees with the reference LRU map")
 
 
+# ---------------------------------------------------------------------------------------------------------------------
+# Concurrent clause, the part the per-method lock discipline does not give (added after hunt report C26_1): an operation of
+# the concurrent list that reads `_mapping` WITHOUT the lock (__contains__, __len__ read it in one GIL-atomic step) is only
+# linearizable if every writer changes `_mapping` in at most ONE step per critical section - otherwise the reader can see
+# the state between two steps (key evicted, new key not yet inserted), which no atomic order of the calls produces.
+
+CONCURRENT_READERS = ("Contains", "Len")
+CONCURRENT_WRITERS = ("SetItem", "DelItem", "Clear", "GetItem", "Get")
+
+
+def _mapping_events(vc, outs, kind):
+    """per reachable path: the `kind` events on the cache's mapping / queue with the locks held at that moment"""
+    from pyvc.smt import check_sat
+    per_path = []
+    for o in outs:
+        if check_sat(o.st.pc, 400, 0, use_cvc5=False).status == "unsat":
+            continue
+        per_path.append([e for e in o.st.trace if e.kind == kind and e.args and isinstance(e.args[0], Ref) and e.args[0] in (vc.pre.m, vc.pre.q)])
+    return per_path
+
+
+def concurrent_unlocked_readers(task, tier, seed):
+    from pyvc.engine import Interp
+    t0 = time.time()
+    g = globals()
+    unlocked = []
+    for cn in CONCURRENT_READERS:
+        vc = g[cn]()
+        pre, outs = vc.paths(Interp())
+        for evs in _mapping_events(vc, outs, "read"):
+            if any(vc.pre.lock.id not in e.held for e in evs):
+                unlocked.append(vc.method)
+                break
+    steps = {}
+    for cn in CONCURRENT_WRITERS:
+        vc = g[cn]()
+        pre, outs = vc.paths(Interp())
+        worst = 0
+        for evs in _mapping_events(vc, outs, "write"):
+            worst = max(worst, len([e for e in evs if e.args[0] == vc.pre.m]))
+        steps[vc.method] = worst
+    multi = sorted(m for m, n in steps.items() if n > 1)
+    name = f"{task.name}.unlocked_readers_see_single_steps"
+    if unlocked and multi:
+        return [Res(name, "refuted", "pyvc-path", time.time() - t0,
+                    f"{', '.join(unlocked)} read _mapping without taking _wlock, and {', '.join(multi)} change(s) _mapping in {max(steps[m] for m in multi)} separate "
+                    "steps inside its critical section: a concurrent reader can observe the state between the steps (e.g. the evicted key already gone, the new "
+                    "key not yet present), which no atomic ordering of the calls produces", "vc",
+                    {"method": "concurrent_reader", "unlocked": unlocked, "multi_step_writers": multi})]
+    return [Res(name, "discharged", "pyvc-path", time.time() - t0,
+                f"unlocked readers: {unlocked or 'none'}; mapping steps per critical section: {steps}", "vc")]
+
+
+def replay_concurrent_reader(w=None):
+    """native schedule (no library code changed): pause a writer thread by sys.settrace right after the eviction line of
+    __setitem__ on a full cache, let a reader thread call `in` twice and len(), resume"""
+    import linecache
+    import sys
+    import threading
+    c = U.LRUCache(2)
+    c["a"], c["b"] = 1, 2
+    paused, resume = threading.Event(), threading.Event()
+    st = {"evict": False, "done": False}
+
+    def tracer(frame, event, arg):
+        code = frame.f_code
+        if code.co_name != "__setitem__" or not code.co_filename.endswith("utils.py"):
+            return None
+
+        def local(frame, event, arg):
+            if event == "line" and not st["done"]:
+                text = linecache.getline(code.co_filename, frame.f_lineno)
+                if st["evict"]:
+                    st["done"] = True
+                    paused.set()
+                    resume.wait(3)
+                elif "_popleft" in text:
+                    st["evict"] = True
+            return local
+        return local
+
+    def writer():
+        sys.settrace(tracer)
+        try:
+            c["c"] = 3
+        finally:
+            sys.settrace(None)
+
+    seen = {}
+
+    def reader():
+        seen["a"], seen["c"], seen["len"] = "a" in c, "c" in c, len(c)
+
+    tw = threading.Thread(target=writer)
+    tw.start()
+    if not paused.wait(5):
+        resume.set()
+        tw.join()
+        return (False, "could not force the schedule")
+    tr = threading.Thread(target=reader)
+    tr.start()
+    tr.join(1.0)          # a reader that takes the lock is still waiting here: nothing observed inside the critical section
+    resume.set()
+    tw.join()
+    tr.join()
+    ok = (seen["a"], seen["c"], seen["len"]) in {(True, False, 2), (False, True, 2)}
+    return (not ok, f"during cache['c'] = 3 on the full cache [a, b] a concurrent reader saw 'a' in cache = {seen['a']}, 'c' in cache = {seen['c']}, len = {seen['len']}"
+                    + ("" if ok else ": no atomic ordering of set('c'), contains('a'), contains('c') gives this"))
+
+
+concurrent_readers = FnTask("C26", "C26.concurrent", concurrent_unlocked_readers, "vc", replay_concurrent_reader)
+concurrent_readers.finding_key = lambda res: "unlocked:" + ",".join((res.witness or {}).get("unlocked", [])) + "|multi-step:" + ",".join((res.witness or {}).get("multi_step_writers", []))
+
 histories = FnTask("C26", "C26.bounded.histories", bounded_histories, "bounded", replay_bounded_history)
 histories.bound_text = ("cross-check of the proof, not a deciding step: all histories of length <= 3 (thorough 5) over 16 operations (set/get/getitem/"
                         "setdefault/del/contains on keys 1..3, copy, pickle round trip, __setstate__, clear), capacities 1..3, on the real LRUCache vs "
                         "the reference map: results, queue, mapping, len, keys/values/items/reversed/iter order after every step")
 
 TASKS = [GetItem(), SetItem(), DelItem(), Get(), SetDefault(), Contains(), Len(), Clear(), Items(), Values(), Keys(),
-         Iter(), Reversed(), Copy(), SetState(), Init(), FnTask("C26", "C26.LRUCache.tables", table_aliases, "table", replay_lru), histories]
+         Iter(), Reversed(), Copy(), SetState(), Init(), FnTask("C26", "C26.LRUCache.tables", table_aliases, "table", replay_lru), concurrent_readers, histories]
 
 META = {
     "level": "proof",
